@@ -164,6 +164,34 @@ def validate(module, judge, trace_file, work, timeout=1800, heap="8g", extra_env
     return res
 
 
+def validate_parallel(module, judge, trace_file, work, parts=8, min_rows=400, **kw):
+    """validate() on contiguous parts of a long trace, one JVM per part, run side by side (the single-threaded
+    evaluation of a thorough-tier trace otherwise exceeds the timeout); verdicts come back in the order of the trace"""
+    from concurrent.futures import ThreadPoolExecutor
+    with open(trace_file) as f:
+        lines = [l for l in f if l.strip()]
+    if len(lines) < min_rows:
+        return validate(module, judge, trace_file, work, **kw)
+    size = -(-len(lines) // parts)
+
+    def one(k):
+        sub = os.path.join(work, "part-%s-%d" % (judge, k))
+        os.makedirs(sub, exist_ok=True)
+        tf = os.path.join(sub, "trace.ndjson")
+        with open(tf, "w") as f:
+            f.writelines(lines[k * size:(k + 1) * size])
+        r = validate(module, judge, tf, sub, heap="4g", **kw)
+        shutil.rmtree(sub, ignore_errors=True)
+        return r
+    with ThreadPoolExecutor(max_workers=parts) as ex:
+        results = list(ex.map(one, range(-(-len(lines) // size))))
+    res = dict(results[0])
+    res["verdicts"] = [v for r in results for v in r["verdicts"]]
+    res["rows"] = [v for r in results for v in r["rows"]]
+    res["wall_s"] = max(r["wall_s"] for r in results)
+    return res
+
+
 def ring_to_complex(p):
     """Float image of an element <<c0..c7, k>> of Z[w][1/sqrt2], w = e^{i pi/8} (spec/Ring16.tla)."""
     import cmath
